@@ -693,8 +693,21 @@ impl<C: CrcCalculator> Encapsulator<C> {
                 return Err(EncapError::ErrorPduLength);
             }
 
+            // check the extensions len
+            // if the header alone cannot be held by a gse packet
+            let first_header_gse_len =
+                FRAG_ID_LEN + TOTAL_LENGTH_LEN + PROTOCOL_LEN + label_len + total_len_extensions;
+            if GSE_LEN_MAX < first_header_gse_len {
+                (self.last_label, self.re_current_consecutive) = re_use_state;
+                return Err(EncapError::ErrorPduLength);
+            }
+
             pkt_type = PktType::FirstFragPkt;
-            pdu_len_encapsulated = buffer_len - min_header_len;
+            // the payload is limited by the buffer and by the maximum GSE length
+            pdu_len_encapsulated = std::cmp::min(
+                buffer_len - min_header_len,
+                GSE_LEN_MAX - first_header_gse_len,
+            );
             gse_len = (FRAG_ID_LEN
                 + TOTAL_LENGTH_LEN
                 + PROTOCOL_LEN
